@@ -5,7 +5,10 @@ General lemmas about the residuals of `EPV.Spec.Euler1D` (C01).
 * the radiative flux `Spec.heatFlux` computed from a derivative certificate of `a T⁴`
   (pointwise, and as functions near the point, so that `dr (heatFlux …)` can be rewritten with a
   certificate of the generated `heat_flux`);
-* the energy residual split into its hydrodynamic part and the divergence of the flux.
+* the energy residual split into its hydrodynamic part and the divergence of the flux;
+* congruence: the residuals at (r, t) depend only on the fields on the line {(x, t)} and on the
+  germ of s ↦ f r s at t (`AgreeAt`), so a theorem about one leaf of a traced decision tree
+  transfers to the tree-level field wherever the path conditions do not depend on the position.
 -/
 import EPV.Spec.Euler1D
 
@@ -62,5 +65,57 @@ theorem energyResT_zero_of_split {ρ u T : Field} {Γ γ k c a lam0 α β r t : 
     energyResT ρ u T Γ γ k c a lam0 α β r t = 0 := by
   rw [energyResT_eq_of_flux hF hF', hH, hdiv]
   simp
+
+/-! ### Congruence -/
+
+/-- `f` and `g` agree on the whole line `{(x, t)}` and, at the position `r`, for all times near `t` -/
+def AgreeAt (f g : Field) (r t : ℝ) : Prop :=
+  (∀ x, f x t = g x t) ∧ (fun s => f r s) =ᶠ[𝓝 t] fun s => g r s
+
+theorem AgreeAt.eq {f g : Field} {r t : ℝ} (h : AgreeAt f g r t) : f r t = g r t := h.1 r
+
+theorem AgreeAt.dr {f g : Field} {r t : ℝ} (h : AgreeAt f g r t) (x : ℝ) : dr f x t = dr g x t := by
+  unfold Spec.dr
+  have : (fun y => f y t) = fun y => g y t := funext h.1
+  rw [this]
+
+theorem AgreeAt.dt {f g : Field} {r t : ℝ} (h : AgreeAt f g r t) : dt f r t = dt g r t := by
+  unfold Spec.dt
+  exact h.2.deriv_eq
+
+theorem massRes_congr {ρ ρ' u u' : Field} {k r t : ℝ} (hρ : AgreeAt ρ ρ' r t) (hu : AgreeAt u u' r t) :
+    massRes ρ u k r t = massRes ρ' u' k r t := by
+  unfold massRes
+  rw [hρ.dt, hρ.dr, hu.dr, hρ.eq, hu.eq]
+
+theorem momResT_congr {ρ ρ' u u' T T' : Field} {Γ r t : ℝ} (hρ : AgreeAt ρ ρ' r t) (hu : AgreeAt u u' r t)
+    (hT : AgreeAt T T' r t) : momResT ρ u T Γ r t = momResT ρ' u' T' Γ r t := by
+  unfold momResT
+  rw [hu.dt, hu.dr, hρ.dr, hT.dr, hρ.eq, hu.eq, hT.eq]
+
+theorem energyHydroT_congr {u u' T T' : Field} {Γ γ k r t : ℝ} (hu : AgreeAt u u' r t)
+    (hT : AgreeAt T T' r t) : energyHydroT u T Γ γ k r t = energyHydroT u' T' Γ γ k r t := by
+  unfold energyHydroT
+  rw [hT.dt, hT.dr, hu.dr, hu.eq, hT.eq]
+
+theorem heatFlux_congr {ρ ρ' T T' : Field} {c a lam0 α β r t : ℝ} (hρ : AgreeAt ρ ρ' r t)
+    (hT : AgreeAt T T' r t) (x : ℝ) :
+    heatFlux ρ T c a lam0 α β x t = heatFlux ρ' T' c a lam0 α β x t := by
+  unfold heatFlux Spec.dr
+  have h : (fun y => a * T y t ^ (4 : ℕ)) = fun y => a * T' y t ^ (4 : ℕ) := by
+    funext y
+    rw [hT.1 y]
+  rw [h, hρ.1 x, hT.1 x]
+
+theorem energyResT_congr {ρ ρ' u u' T T' : Field} {Γ γ k c a lam0 α β r t : ℝ} (hρ : AgreeAt ρ ρ' r t)
+    (hu : AgreeAt u u' r t) (hT : AgreeAt T T' r t) :
+    energyResT ρ u T Γ γ k c a lam0 α β r t = energyResT ρ' u' T' Γ γ k c a lam0 α β r t := by
+  unfold energyResT
+  have h : (fun x => heatFlux ρ T c a lam0 α β x t) = fun x => heatFlux ρ' T' c a lam0 α β x t :=
+    funext (heatFlux_congr hρ hT)
+  have h1 : dr (heatFlux ρ T c a lam0 α β) r t = dr (heatFlux ρ' T' c a lam0 α β) r t := by
+    unfold Spec.dr
+    rw [h]
+  rw [h1, heatFlux_congr hρ hT r, energyHydroT_congr hu hT, hρ.eq]
 
 end EPV.Spec
